@@ -28,7 +28,7 @@ OUT_TYPES: Tuple[str, ...] = ("SELL", "GIFT", "DONATE", "FEE", "LOST", "STAKING"
 ALL_IN_TYPES: Tuple[str, ...] = ACQ_TYPES + EARN_TYPES
 METHODS: Tuple[str, ...] = ("fifo", "lifo", "hifo", "lofo")
 
-EXCHANGES: Tuple[str, ...] = ("Coinbase", "Coinbase_Pro", "Block Fi", "L\u00e9dger")  # a name with a space (the documentation's own example is "Coinbase Pro"), a non-ASCII one
+EXCHANGES: Tuple[str, ...] = ("Coinbase", "Coinbase_Pro", "@Block Fi #2", "L\u00e9dger ;cold")  # names with a space (the documentation's own example is "Coinbase Pro"), " #" / " ;" (comment characters elsewhere in ini files), a leading @, non-ASCII letters
 HOLDERS: Tuple[str, ...] = ("Pro_Bob", "Bob")  # with the exchanges above two different accounts share the join "Coinbase_Pro_Bob" (RP2 sorts balances by "<exchange>_<holder>")
 ASSETS: Tuple[str, ...] = ("AAA", "BBB", "CCC")
 
@@ -67,9 +67,16 @@ def render_ts(text: str) -> str:
     import zlib
 
     moment = parse_ts(text)
-    style = zlib.crc32(text.encode()) % 5
+    style = zlib.crc32(text.encode()) % 6
     if style == 0:
         return text
+    if style == 5:
+        # numeric month/day/year as US exports write it; a day above 12 can only be read one way, so such a date is written
+        # day first now and then (dateutil, which RP2 documents as its reader, takes either)
+        date_part = moment.strftime("%m/%d/%Y")
+        if moment.day > 12 and zlib.crc32(text[::-1].encode()) % 2:
+            date_part = moment.strftime("%d/%m/%Y")
+        return date_part + moment.strftime(" %H:%M:%S.%f %z")
     if style == 1:
         return moment.isoformat()  # 2020-01-01T10:00:00.000001-03:30 (no space before the offset)
     if style == 2:
@@ -392,6 +399,12 @@ def history(rng: random.Random, profile: Optional[Profile] = None, asset: str = 
                     row["cfee"] = "0"  # an explicit crypto fee of zero in the cell (as in the shipped test_data4.ods): no fee, no artificial fee row
                 elif p.allow_in_crypto_fee and rng.random() < 0.08:
                     row["ffee"] = "0"  # an explicit fiat fee of zero
+            if earn:
+                # income paid net of a fee (a staking commission, a mining pool's cut): the fee is part of the income's value
+                if p.allow_in_crypto_fee and rng.random() < 0.15 and amount * spot >= p.min_transfer_fee_fiat:
+                    row["cfee"] = dstr(_limit_sig(max(Q11, q11(amount / rng.choice((20, 100, 1000)))), p.max_sig_digits))
+                elif rng.random() < p.p_in_fiat_fee / 3:
+                    row["ffee"] = dstr(_limit_sig(q11(amount * spot / rng.choice((20, 100, 333))) + Decimal("0.01"), p.max_sig_digits))
             if rng.random() < p.p_optional_fiat:
                 value = amount * spot
                 if rng.random() < p.p_inconsistent_fiat:
@@ -465,6 +478,11 @@ def history(rng: random.Random, profile: Optional[Profile] = None, asset: str = 
                 value = _limit_sig(value, p.max_sig_digits)
                 if value > 0:
                     row["fout_nf"] = dstr(value)
+            elif ttype == "FEE" and rng.random() < p.p_optional_fiat / 4:
+                # the export fills the "value" column of a fee-only row as well (it plays no role: the fee is the taxable value)
+                row["fout_nf"] = dstr(_limit_sig(q11(cfee * spot) + Decimal(rng.choice(("0.01", "7", "63"))), p.max_sig_digits))
+            if cfee == 0 and ttype != "FEE" and rng.random() < p.p_optional_fiat / 3:
+                row["ffee"] = dstr(_limit_sig(q11(cout * spot / rng.choice((50, 200, 1000))) + Decimal("0.01"), p.max_sig_digits))  # a fee charged in fiat only
             if cfee > 0 and rng.random() < p.p_optional_fiat:
                 value = cfee * spot
                 if rng.random() < p.p_inconsistent_fiat:
@@ -487,6 +505,8 @@ def history(rng: random.Random, profile: Optional[Profile] = None, asset: str = 
             fee = Decimal(0)
             if rng.random() < p.p_intra_fee and sent > Q11:
                 fee = _limit_sig(max(Q11, q11(sent / rng.choice((10, 100, 1000, 100000)))), p.max_sig_digits)
+                if rng.random() < 0.1:
+                    fee = Q11 * rng.randint(1, 50)  # a dust fee whatever the size of the transfer
                 if fee >= sent:
                     fee = Decimal(0)
                 elif rng.random() < 0.04:
